@@ -36,6 +36,11 @@ enum StageSpec {
     Sort(u8, u64, bool),
     /// filter_as_streams with filters given as json
     Filter(Vec<String>),
+    /// plugins_process_msgs with a plugin that got the lifecycle read handle (set_lifecycle_read_handle, as remote.rs does)
+    /// and looks every message's lifecycle up in the shared table when it gets the message; the result goes into the text
+    Probe,
+    /// plugins_process_msgs with the real export plugin configured with lifecyclesToKeep and the lifecycle read handle
+    Export,
 }
 
 impl StageSpec {
@@ -45,6 +50,8 @@ impl StageSpec {
             StageSpec::Plugins(k, st) => json!({"k": "plugins", "drop": k, "stall": st}),
             StageSpec::Sort(w, d, l) => json!({"k": "sort", "win": w, "delay": d, "live": l}),
             StageSpec::Filter(f) => json!({"k": "filter", "filters": f}),
+            StageSpec::Probe => json!({"k": "probe"}),
+            StageSpec::Export => json!({"k": "export"}),
         }
     }
     fn from_json(v: &Value) -> StageSpec {
@@ -52,6 +59,8 @@ impl StageSpec {
             "lc" => StageSpec::Lc,
             "plugins" => StageSpec::Plugins(v["drop"].as_u64().unwrap() as u32, serde_json::from_value(v["stall"].clone()).unwrap_or_default()),
             "sort" => StageSpec::Sort(v["win"].as_u64().unwrap() as u8, v["delay"].as_u64().unwrap(), v["live"].as_bool().unwrap()),
+            "probe" => StageSpec::Probe,
+            "export" => StageSpec::Export,
             _ => StageSpec::Filter(v["filters"].as_array().unwrap().iter().map(|s| s.as_str().unwrap().to_string()).collect()),
         }
     }
@@ -75,6 +84,8 @@ impl StageSpec {
             StageSpec::Sort(_, _, true) => "Slive",
             StageSpec::Sort(_, _, false) => "S",
             StageSpec::Filter(_) => "F",
+            StageSpec::Probe => "R",
+            StageSpec::Export => "X",
         }
     }
 }
@@ -86,6 +97,9 @@ struct Pipeline {
     /// Some(i): msgs[i..] is a long tidy tail (a producer that would go on for a long time): after a consumer
     /// drop the producer must be refused a message long before its input ends
     tail_from: Option<usize>,
+    /// the calculated start of every lifecycle is fixed by its first message (constant reception - timestamp per boot):
+    /// the start time the live sort reads does not depend on when it reads it, its output order can be compared exactly
+    stable_starts: bool,
 }
 
 /// one scripted run of a pipeline
@@ -167,6 +181,37 @@ impl Plugin for Numbering {
     }
 }
 
+/// a downstream stage that reads the lifecycle table out of band: looks the lifecycle of every message up when it gets it
+struct LcProbe {
+    lcs_r: Option<adlt::lifecycle::LcsRType>,
+    state: Arc<RwLock<PluginState>>,
+}
+impl Plugin for LcProbe {
+    fn name(&self) -> &str {
+        "lc_probe"
+    }
+    fn enabled(&self) -> bool {
+        true
+    }
+    fn state(&self) -> Arc<RwLock<PluginState>> {
+        self.state.clone()
+    }
+    fn set_lifecycle_read_handle(&mut self, lcs_r: &adlt::lifecycle::LcsRType) {
+        self.lcs_r = Some(lcs_r.clone());
+    }
+    fn sync_all(&mut self) {}
+    fn process_msg(&mut self, msg: &mut DltMessage) -> bool {
+        // k1 = known with the message's ecu, k2 = known with another ecu, k0 = not (yet) in the table
+        let code = match self.lcs_r.as_ref().and_then(|r| r.get_one(&msg.lifecycle).map(|lc| lc.ecu == msg.ecu)) {
+            Some(true) => "k1",
+            Some(false) => "k2",
+            None => "k0",
+        };
+        msg.payload_text = Some(format!("{}{}", msg.payload_text.clone().unwrap_or_default(), code));
+        true
+    }
+}
+
 /// a slow stage: stalls before the i-th message it sees
 struct Stall {
     script: Vec<u8>,
@@ -212,6 +257,7 @@ struct RunOut {
     taps: Vec<Vec<u32>>,   // per stage: indices passed to outflow, in order
     results: Vec<StageRes>, // per stage
     producer_sent: usize,
+    unknown_at_delivery: Vec<u32>, // delivered messages whose lifecycle was not in the shared table (with their ecu) at delivery
     sent_at_drop: usize, // messages the producer had sent when the consumer dropped its receiver
     producer_err: bool,
     hung: Vec<usize>, // thread numbers (0 = producer, i+1 = stage i) not finished within the timeout
@@ -363,6 +409,27 @@ fn run_real(p: &Pipeline, s: &Script, hang_timeout: Duration) -> RunOut {
                     StageRes::Sort(buffer_sort_messages(rx, outflow!(), &r, win, delay).is_ok())
                 })));
             }
+            StageSpec::Probe | StageSpec::Export => {
+                let r = lcs_r.clone();
+                let export = *st == StageSpec::Export;
+                handles.push(H::Other(std::thread::spawn(move || {
+                    let _g = g;
+                    let dir = tempfile::tempdir().expect("tempdir");
+                    let mut plugin: Box<dyn Plugin + Send> = if export {
+                        let cfg = json!({"name": "Export", "exportFileName": dir.path().join("out.dlt").to_string_lossy(), "filters": [],
+                                         "lifecyclesToKeep": [{"ecu": "ZZZZ", "startTime": 1, "endTime": 2}]});
+                        Box::new(adlt::plugins::export::ExportPlugin::from_json(cfg.as_object().unwrap()).expect("export plugin"))
+                    } else {
+                        Box::new(LcProbe { lcs_r: None, state: Arc::new(RwLock::new(PluginState::default())) })
+                    };
+                    // as remote.rs: the read handle is handed to the plugins before any message is processed
+                    plugin.set_lifecycle_read_handle(&r);
+                    match plugins_process_msgs(rx, outflow!(), vec![plugin]) {
+                        Ok(p) => StageRes::Plugins(true, p.len()),
+                        Err(_) => StageRes::Plugins(false, 0),
+                    }
+                })));
+            }
             StageSpec::Filter(fs) => {
                 let filters: Vec<Filter> = fs.iter().map(|j| Filter::from_json(j).expect("filter json")).collect();
                 handles.push(H::Other(std::thread::spawn(move || {
@@ -380,6 +447,8 @@ fn run_real(p: &Pipeline, s: &Script, hang_timeout: Duration) -> RunOut {
     // consumer (this thread)
     let rx = rx_prev;
     let mut delivered = vec![];
+    let mut unknown_at_delivery: Vec<u32> = vec![];
+    let has_lc = p.stages.iter().any(|s| *s == StageSpec::Lc);
     let mut k = 0usize;
     loop {
         if let Some(d) = s.drop_at {
@@ -392,6 +461,10 @@ fn run_real(p: &Pipeline, s: &Script, hang_timeout: Duration) -> RunOut {
         }
         match rx.recv() {
             Ok(m) => {
+                // rule #1 of the lifecycle stage, seen from the end of the pipeline: the lifecycle of a delivered message is in the table
+                if has_lc && m.lifecycle != 0 && lcs_r.get_one(&m.lifecycle).map_or(true, |lc| lc.ecu != m.ecu) {
+                    unknown_at_delivery.push(m.index);
+                }
                 delivered.push(seen(&m));
                 k += 1;
             }
@@ -431,7 +504,7 @@ fn run_real(p: &Pipeline, s: &Script, hang_timeout: Duration) -> RunOut {
         }
     }
     let taps = taps.iter().map(|t| t.lock().unwrap().clone()).collect();
-    RunOut { delivered, taps, results, producer_sent, sent_at_drop, producer_err, hung, full_hits: full_hits.load(std::sync::atomic::Ordering::Relaxed), wall_ms: t0.elapsed().as_millis() }
+    RunOut { delivered, taps, results, unknown_at_delivery, producer_sent, sent_at_drop, producer_err, hung, full_hits: full_hits.load(std::sync::atomic::Ordering::Relaxed), wall_ms: t0.elapsed().as_millis() }
 }
 
 // ------------------------------------------------------------------ canonicalisation
@@ -465,7 +538,7 @@ fn canon(delivered: &[Seen], results: &[StageRes]) -> (Vec<Seen>, Vec<StageRes>)
 
 // ------------------------------------------------------------------ oracle
 fn exact_pipeline(p: &Pipeline) -> bool {
-    !p.stages.iter().any(|s| matches!(s, StageSpec::Sort(_, _, true)))
+    p.stable_starts || !p.stages.iter().any(|s| matches!(s, StageSpec::Sort(_, _, true)))
 }
 
 /// the property evaluated directly: bounded run `b` against the large-capacity reference `r`
@@ -476,6 +549,15 @@ fn oracle(p: &Pipeline, s: &Script, r: &RunOut, b: &RunOut) -> Verdict {
     }
     if !b.hung.is_empty() {
         return fail(if s.drop_at.is_some() { "terminates_after_consumer_drop" } else { "terminates" }, format!("threads {:?} (0 = producer, i = stage i) still running after the timeout", b.hung));
+    }
+    let lc_alive = |o: &RunOut| !o.results.iter().zip(p.stages.iter()).any(|(x, st)| *st == StageSpec::Lc && *x == StageRes::Panicked);
+    if lc_alive(b) && !b.unknown_at_delivery.is_empty() {
+        return fail("lifecycle_known_at_delivery", format!("messages {:?} were delivered before their lifecycle was in the shared table", b.unknown_at_delivery));
+    }
+    if let Some(i) = b.results.iter().position(|x| *x == StageRes::Panicked) {
+        if r.results[i] != StageRes::Panicked {
+            return fail("no_stage_dies", format!("stage {} ({}) panicked with these channels / this pacing, but not in the large-capacity run; {} of {} messages delivered", i, p.stages[i].tag(), b.delivered.len(), r.delivered.len()));
+        }
     }
     let (rd, rr) = canon(&r.delivered, &r.results);
     let (bd, br) = canon(&b.delivered, &b.results);
@@ -649,7 +731,7 @@ fn gen_pipeline(rng: &mut Rng, max_msgs: u64) -> Pipeline {
     if rng.chance(1, 2) || stages.is_empty() {
         stages.push(StageSpec::Filter(gen_filters(rng)));
     }
-    Pipeline { msgs, stages, tail_from: None }
+    Pipeline { msgs, stages, tail_from: None, stable_starts: false }
 }
 
 fn gen_script(rng: &mut Rng, p: &Pipeline, vector: usize, ref_out: usize) -> Script {
@@ -777,7 +859,7 @@ fn coq_case(p: &Pipeline, s: &Script, r: &RunOut) -> String {
 }
 
 fn case_json(p: &Pipeline, s: &Script) -> Value {
-    json!({"tail_from": p.tail_from, "msgs": p.msgs, "stages": p.stages.iter().map(|s| s.to_json()).collect::<Vec<_>>(),
+    json!({"tail_from": p.tail_from, "stable_starts": p.stable_starts, "msgs": p.msgs, "stages": p.stages.iter().map(|s| s.to_json()).collect::<Vec<_>>(),
            "caps": s.caps, "prod": s.prod, "cons": s.cons, "drop_at": s.drop_at, "sched": s.sched, "attr_seed": s.attr_seed.to_string(), "hops": s.hops})
 }
 fn case_from_json(v: &Value) -> (Pipeline, Script) {
@@ -792,7 +874,7 @@ fn case_from_json(v: &Value) -> (Pipeline, Script) {
         attr_seed: v["attr_seed"].as_str().unwrap().parse().unwrap(),
         hops: serde_json::from_value(v["hops"].clone()).unwrap_or_default(),
     };
-    (Pipeline { msgs, stages, tail_from: v["tail_from"].as_u64().map(|x| x as usize) }, s)
+    (Pipeline { msgs, stages, tail_from: v["tail_from"].as_u64().map(|x| x as usize), stable_starts: v["stable_starts"].as_bool().unwrap_or(false) }, s)
 }
 
 fn reference_script(p: &Pipeline) -> Script {
@@ -986,7 +1068,7 @@ fn gen_loss_pipeline(rng: &mut Rng, i: usize, max: u64) -> Pipeline {
         2 => vec![StageSpec::Lc, StageSpec::Sort(3, *rng.pick(&[0u64, 1_000, 100_000]), false)],
         _ => vec![StageSpec::Lc, StageSpec::Plugins(0, vec![]), StageSpec::Filter(vec![r#"{"type":1,"ctid":"DC1"}"#.to_string()])],
     };
-    Pipeline { msgs, stages, tail_from: Some(tail_from) }
+    Pipeline { msgs, stages, tail_from: Some(tail_from), stable_starts: false }
 }
 
 fn gen_loss_scenarios(rng: &mut Rng, n_lc: usize, n_other: usize, max: u64) -> Vec<LossScenario> {
@@ -1072,6 +1154,9 @@ fn run_loss(sc: &LossScenario, k: Option<usize>, watchdog: Duration) -> LossRun 
             StageSpec::Filter(fs) => {
                 let filters: Vec<Filter> = fs.iter().map(|j| Filter::from_json(j).expect("filter json")).collect();
                 let _ = filter_as_streams(&filters, &rx, &outflow);
+            }
+            StageSpec::Probe | StageSpec::Export => {
+                let _ = plugins_process_msgs(rx, &outflow, vec![]);
             }
         }
     });
@@ -1258,7 +1343,7 @@ fn loss_case(sc: &LossScenario, ks_replay: Option<Vec<usize>>) -> LossDone {
     let rows_coq = clist(
         &rows.iter().take(upto).enumerate().map(|(i, (dr, d))| format!("({}, {}, {})", i, cnums(dr), copt(d.map(|x| x.to_string())))).collect::<Vec<_>>(),
     );
-    let input_coq = format!("inr ({}, {}, {}, {}, {})", if is_lc { 1 } else { 0 }, n, rows_coq, cnums(&fl), cnums(&ks));
+    let input_coq = format!("inr (inl ({}, {}, {}, {}, {}))", if is_lc { 1 } else { 0 }, n, rows_coq, cnums(&fl), cnums(&ks));
     LossDone { sc: sc.clone(), runs: ks.len() + 1, ks, input_coq, obs: O::T(obs), verdict, tags, calm_after_tail }
 }
 
@@ -1285,28 +1370,236 @@ fn push_loss(sink: &mut Sink, d: LossDone) {
     sink.push(Case { id, input_coq: d.input_coq, input_json, obs: d.obs, verdict: d.verdict, classes: vec![], tags: d.tags, nontrivial, key });
 }
 
+
+// ================================================================== readers of the shared lifecycle table
+/// traces that END while an ecu still has >= 2 unconfirmed lifecycles (it rebooted 1..3 times within the last < 60 s),
+/// optionally after an ordinary confirmed phase; `stable`: constant reception - timestamp per boot, so that the
+/// calculated start of a lifecycle never moves after its first message
+fn gen_double_reboot_end(rng: &mut Rng, max: u64, stable: bool) -> Vec<MsgSpec> {
+    let s = 1_000_000u64;
+    let necu = rng.range(1, 3) as usize;
+    let mut v: Vec<MsgSpec> = vec![];
+    let lead = if rng.chance(1, 2) { rng.range(65, 120) * s } else { 0 }; // confirmed phase before the last minute
+    for e in 0..necu {
+        let off = e as u64 * rng.below(3) * s + e as u64 * 1000;
+        let delay = rng.below(200_000);
+        if lead > 0 {
+            let n = rng.range(3, 8);
+            for i in 0..n {
+                let up = 1000 + i * lead / n;
+                let jitter = if stable { 0 } else { rng.below(100_000) };
+                v.push((e as u8 + 1, RHO + off + up + delay + jitter, (up / 100) as u32, 0));
+            }
+        }
+        // the last minute: ecu 1 always reboots at least once more, the others sometimes
+        let boots = if e == 0 { rng.range(2, 4) } else { rng.range(1, 3) };
+        let span = rng.range(20, 55) * s;
+        let per = span / boots;
+        for b in 0..boots {
+            let boot = RHO + off + lead + 5 * s + b * per;
+            let n = rng.range(1, (max / (necu as u64 * boots)).max(2));
+            let delay = rng.below(200_000);
+            for i in 0..n {
+                let up = 100_000 + i * (per / 2) / n;
+                let jitter = if stable { 0 } else { rng.below(50_000) };
+                v.push((e as u8 + 1, boot + up + delay + jitter, (up / 100) as u32, 0));
+            }
+        }
+    }
+    v.sort_by_key(|m| m.1);
+    v
+}
+
+fn from_lcgen(ms: Vec<lcgen::MSpec>) -> Vec<MsgSpec> {
+    ms.into_iter().filter(|m| m.kind <= 1).map(|m| (m.ecu.max(1), m.rt, m.ts_dms, if m.kind == 1 { 1 } else { 2 })).collect()
+}
+
+/// pipelines in which a stage behind the lifecycle stage reads the lifecycle table out of band
+fn gen_reader_pipeline(rng: &mut Rng, i: usize, max: u64) -> Pipeline {
+    let stable = i % 2 == 0;
+    let msgs = match i % 6 {
+        0 | 1 | 2 | 3 => gen_double_reboot_end(rng, max, stable),
+        4 => from_lcgen(lcgen::gen_scenario(rng)).into_iter().take(max as usize + 20).collect(),
+        _ => from_lcgen(if rng.chance(1, 2) { lcgen::gen_merge_template(rng) } else { lcgen::gen_general(rng, max) }),
+    };
+    let stable_starts = stable && i % 6 < 4;
+    let mut stages = vec![StageSpec::Lc];
+    match rng.below(5) {
+        0 => stages.push(StageSpec::Probe),
+        1 => stages.push(StageSpec::Export),
+        2 => stages.push(StageSpec::Sort(*rng.pick(&[1u8, 3]), *rng.pick(&[0u64, 100_000, 2_000_000, 20_000_000]), true)),
+        3 => {
+            stages.push(StageSpec::Probe);
+            stages.push(StageSpec::Sort(3, *rng.pick(&[100_000u64, 2_000_000]), true));
+        }
+        _ => {
+            stages.push(StageSpec::Export);
+            stages.push(StageSpec::Filter(gen_filters(rng)));
+        }
+    }
+    Pipeline { msgs, stages, tail_from: None, stable_starts }
+}
+
+/// the lifecycle stage alone, single-threaded, with an outflow closure that looks the message's lifecycle up at the very
+/// moment it is handed over (the earliest moment a reader behind a rendezvous channel can look), and once more after the
+/// stage has returned (the latest): (index, lifecycle id, ids visible with the right ecu at the send, known at the send)
+struct SendView {
+    index: u32,
+    lc: u32,
+    visible: Vec<u32>,
+    known: bool,
+}
+fn run_pub_before_send(msgs: &[MsgSpec]) -> Result<(Vec<SendView>, Vec<u32>), String> {
+    let msgs = msgs.to_vec();
+    catch(move || {
+        let (lcs_r, lcs_w) = evmap::Options::default().with_hasher(Hasher::default()).construct::<LifecycleId, LifecycleItem>();
+        let (tx, rx) = std::sync::mpsc::channel();
+        for (i, m) in msgs.iter().enumerate() {
+            tx.send(build_msg(i, m)).unwrap();
+        }
+        drop(tx);
+        let views = std::cell::RefCell::new(vec![]);
+        let w = parse_lifecycles_buffered_from_stream(lcs_w, rx, &|m: DltMessage| {
+            let mut visible = vec![];
+            if let Some(r) = lcs_r.read() {
+                for (id, bag) in &r {
+                    if bag.get_one().is_some() {
+                        visible.push(*id);
+                    }
+                }
+            }
+            visible.sort();
+            let known = lcs_r.get_one(&m.lifecycle).map_or(false, |lc| lc.ecu == m.ecu);
+            views.borrow_mut().push(SendView { index: m.index, lc: m.lifecycle, visible, known });
+            Ok(())
+        });
+        let mut fin = vec![];
+        if let Some(r) = lcs_r.read() {
+            for (id, _) in &r {
+                fin.push(*id);
+            }
+        }
+        fin.sort();
+        drop(w);
+        (views.into_inner(), fin)
+    })
+}
+
+struct SharedDone {
+    msgs: Vec<MsgSpec>,
+    runs: Vec<(usize, u8, Vec<u64>)>, // (capacity of every channel, consumer pacing mode, model schedule)
+    input_coq: String,
+    obs: O,
+    verdict: Verdict,
+    tags: Vec<String>,
+}
+
+fn shared_case(msgs: &[MsgSpec], runs: Vec<(usize, u8, Vec<u64>)>, family: &str, hang: Duration) -> SharedDone {
+    let fail = |c: &str, d: String| Verdict::Fail { clause: c.into(), detail: d };
+    let mut verdict = Verdict::Ok;
+    let mut tags = vec!["shared_table".to_string(), format!("shared_family_{}", family)];
+    let (views, fin) = match run_pub_before_send(msgs) {
+        Ok(x) => x,
+        Err(e) => {
+            tags.push("stage_panicked".into());
+            let _ = e;
+            (vec![], vec![])
+        }
+    };
+    // ranks of lifecycle ids
+    let mut ids: Vec<u32> = fin.clone();
+    for v in &views {
+        ids.push(v.lc);
+        ids.extend(v.visible.iter());
+    }
+    ids.sort();
+    ids.dedup();
+    let rank = |id: u32| ids.binary_search(&id).unwrap() as u64 + 1;
+    // how many lifecycles of one ecu are published only at the end of the stream (still buffered when the input ended)?
+    let first_visible: std::collections::BTreeMap<u32, usize> = {
+        let mut m = std::collections::BTreeMap::new();
+        for (j, v) in views.iter().enumerate() {
+            for id in &v.visible {
+                m.entry(*id).or_insert(j);
+            }
+        }
+        m
+    };
+    let _ = first_visible;
+    // ---- the side condition, on the real stage: published before sent, and still there at the end
+    if let Some(v) = views.iter().find(|v| !v.known) {
+        verdict = fail("published_before_sent", format!("message {} was handed to the outflow while its lifecycle was not in the shared table (visible ids at that moment: {} of {} at the end)", v.index, v.visible.len(), fin.len()));
+    } else if let Some(v) = views.iter().find(|v| !fin.contains(&v.lc)) {
+        verdict = fail("published_stays", format!("the lifecycle of delivered message {} is not in the final table", v.index));
+    }
+    // ---- threaded: lifecycle -> probing plugin -> consumer, every channel of capacity c, consumer eager / stalling / bursty
+    let p = Pipeline { msgs: msgs.to_vec(), stages: vec![StageSpec::Lc, StageSpec::Probe], tail_from: None, stable_starts: false };
+    let reference = run_real(&p, &reference_script(&p), hang);
+    let flags = |o: &RunOut| -> Vec<u64> { o.delivered.iter().map(|m| if m.5.ends_with("k1") { 1 } else { 0 }).collect() };
+    let mut obs = vec![];
+    for (cap, mode, sched) in &runs {
+        let cons: Vec<u8> = match mode {
+            0 => vec![],
+            1 => vec![3, 0, 0, 2, 4, 0],
+            _ => vec![0, 0, 0, 0, 3],
+        };
+        let sc = Script { caps: vec![*cap; 3], prod: vec![], cons, drop_at: None, sched: sched.clone(), attr_seed: 0, hops: vec![] };
+        let b = run_real(&p, &sc, hang);
+        obs.push(O::T(flags(&b).into_iter().map(O::n).collect()));
+        if matches!(verdict, Verdict::Ok) {
+            let v = oracle(&p, &sc, &reference, &b);
+            if let Verdict::Fail { clause, detail } = v {
+                verdict = fail(&clause, format!("capacity {} pacing {}: {}", cap, mode, detail));
+            } else if flags(&b).iter().any(|f| *f == 0) {
+                verdict = fail("lookups_schedule_independent", format!("capacity {} pacing {}: the reader stage did not find the lifecycle of some messages: {:?}", cap, mode, flags(&b)));
+            }
+        }
+    }
+    if views.iter().any(|v| v.visible.len() + 2 <= fin.len()) {
+        tags.push("shared_two_or_more_lifecycles_published_late".into());
+    }
+    let evs = clist(&views.iter().map(|v| format!("({}, {}, {})", cnums(&v.visible.iter().map(|i| rank(*i)).collect::<Vec<_>>()), v.index, rank(v.lc))).collect::<Vec<_>>());
+    let runs_coq = clist(&runs.iter().map(|(c, _, s)| format!("({}, {})", c, cnums(s))).collect::<Vec<_>>());
+    let input_coq = format!("inr (inr ({}, {}, {}))", evs, cnums(&fin.iter().map(|i| rank(*i)).collect::<Vec<_>>()), runs_coq);
+    SharedDone { msgs: msgs.to_vec(), runs, input_coq, obs: O::T(obs), verdict, tags }
+}
+
+fn gen_shared_runs(rng: &mut Rng) -> Vec<(usize, u8, Vec<u64>)> {
+    [0usize, 1, 2, 4, LARGE].iter().map(|c| (*c, rng.below(3) as u8, (0..24).map(|_| rng.below(97)).collect())).collect()
+}
+
+fn push_shared(sink: &mut Sink, d: SharedDone) {
+    let input_json = json!({"shared": true, "msgs": d.msgs, "runs": d.runs});
+    let key = input_json.to_string();
+    let nontrivial = d.msgs.len() >= 3;
+    let id = sink.next_id();
+    sink.push(Case { id, input_coq: d.input_coq, input_json, obs: d.obs, verdict: d.verdict, classes: vec![], tags: d.tags, nontrivial, key });
+}
+
 fn corpus() -> Vec<Pipeline> {
     let s = 1_000_000u64;
     let full = vec![StageSpec::Lc, StageSpec::Plugins(3, vec![]), StageSpec::Sort(3, 100_000, false), StageSpec::Filter(vec![r#"{"type":1,"apid":"AP1"}"#.to_string()])];
     vec![
         // empty stream through everything
-        Pipeline { msgs: vec![], stages: full.clone(), tail_from: None },
+        Pipeline { msgs: vec![], stages: full.clone(), tail_from: None, stable_starts: false },
         // one message
-        Pipeline { msgs: vec![(1, RHO, 10, 0)], stages: full.clone(), tail_from: None },
+        Pipeline { msgs: vec![(1, RHO, 10, 0)], stages: full.clone(), tail_from: None, stable_starts: false },
         // DESIGN Appendix A C07-1 (merge of a confirmed lifecycle): buffering + release in bursts
         Pipeline {
             msgs: vec![(1, RHO, 200000, 0), (2, RHO + s / 5, 0, 0), (1, RHO + s / 2, 0, 0), (1, RHO - s, 0, 0), (3, RHO + 60 * s + s / 10, 0, 0), (1, RHO - 5 * s, 0, 0)],
             stages: vec![StageSpec::Lc, StageSpec::Plugins(0, vec![0, 3, 0, 0, 2])],
             tail_from: None,
+            stable_starts: false,
         },
         // two boots of one ecu, everything buffered until the end, live sort
         Pipeline {
             msgs: (0..20).map(|i| (1u8, RHO + i * 100_000 + if i >= 10 { 100 * s } else { 0 }, ((i % 10) * 1000 + 10) as u32, 0u8)).collect(),
             stages: vec![StageSpec::Lc, StageSpec::Plugins(2, vec![]), StageSpec::Sort(3, 1_000, true), StageSpec::Filter(vec![r#"{"type":0,"ecu":"EC01"}"#.to_string()])],
             tail_from: None,
+            stable_starts: false,
         },
         // long tidy stream, no lifecycle stage
-        Pipeline { msgs: (0..40).map(|i| (1 + (i % 2) as u8, RHO + i * 1000, (i * 10) as u32, 0u8)).collect(), stages: vec![StageSpec::Plugins(4, vec![1, 0, 0, 3]), StageSpec::Filter(vec![r#"{"type":0,"ecu":"EC01"}"#.to_string()])], tail_from: None },
+        Pipeline { msgs: (0..40).map(|i| (1 + (i % 2) as u8, RHO + i * 1000, (i * 10) as u32, 0u8)).collect(), stages: vec![StageSpec::Plugins(4, vec![1, 0, 0, 3]), StageSpec::Filter(vec![r#"{"type":0,"ecu":"EC01"}"#.to_string()])], tail_from: None, stable_starts: false },
         // live sort whose view of the lifecycle table depends on timing: lifecycle A is confirmed (and published with
         // start 0.5 s) at message 2, message 3 moves its start to 0.1 s, which is only published at the end;
         // messages 0 (A, 1.0 s or 0.6 s) and 1 (B, 0.85 s) swap their calculated order between the two values
@@ -1314,9 +1607,10 @@ fn corpus() -> Vec<Pipeline> {
             msgs: vec![(1, RHO + s, 5_000, 0), (2, RHO + s, 6_500, 0), (2, RHO + s + s / 5, 10_000, 0), (1, RHO + 80 * s, 795_000, 0), (1, RHO + 81 * s, 809_000, 0), (2, RHO + 81 * s + s / 10, 807_000, 0)],
             stages: vec![StageSpec::Lc, StageSpec::Sort(3, 2_000_000, true)],
             tail_from: None,
+            stable_starts: false,
         },
         // filter that passes nothing behind a sort
-        Pipeline { msgs: (0..12).map(|i| (1u8, RHO + (12 - i) * 1000, (i * 10) as u32, 0u8)).collect(), stages: vec![StageSpec::Sort(1, 0, false), StageSpec::Filter(vec![r#"{"type":0,"ecu":"EC09"}"#.to_string()])], tail_from: None },
+        Pipeline { msgs: (0..12).map(|i| (1u8, RHO + (12 - i) * 1000, (i * 10) as u32, 0u8)).collect(), stages: vec![StageSpec::Sort(1, 0, false), StageSpec::Filter(vec![r#"{"type":0,"ecu":"EC09"}"#.to_string()])], tail_from: None, stable_starts: false },
     ]
 }
 
@@ -1329,6 +1623,13 @@ fn main() {
 
     if let Some(f) = &a.replay {
         let v = read_replay(f);
+        if v["case"]["shared"].as_bool() == Some(true) {
+            let msgs: Vec<MsgSpec> = serde_json::from_value(v["case"]["msgs"].clone()).unwrap();
+            let runs: Vec<(usize, u8, Vec<u64>)> = serde_json::from_value(v["case"]["runs"].clone()).unwrap();
+            push_shared(&mut sink, shared_case(&msgs, runs, "replay", hang));
+            sink.finish();
+            return;
+        }
         if v["case"]["loss"].as_bool() == Some(true) {
             let (sc, ks) = loss_from_json(&v["case"]);
             push_loss(&mut sink, loss_case(&sc, Some(ks)));
@@ -1360,6 +1661,14 @@ fn main() {
     };
     for i in 0..n_tail_pipes {
         pipes.push(gen_loss_pipeline(&mut rng, i, max_msgs));
+    }
+    let n_reader_pipes = match a.tier.as_str() {
+        "quick" => 12,
+        "search" => 18,
+        _ => 120,
+    };
+    for i in 0..n_reader_pipes {
+        pipes.push(gen_reader_pipeline(&mut rng, i, max_msgs));
     }
     // jobs: (pipeline, script seeds); the reference run is done by the worker once per pipeline
     let jobs: Vec<(usize, Pipeline, u64)> = pipes.into_iter().enumerate().map(|(i, p)| (i, p, rng.next())).collect();
@@ -1433,6 +1742,48 @@ fn main() {
         calm_max = calm_max.max(d.calm_after_tail);
         push_loss(&mut sink, d);
     }
+    // readers of the shared lifecycle table: side condition on the real stage + threaded look-ups per capacity
+    let n_shared = match a.tier.as_str() {
+        "quick" => 10usize,
+        "search" => 16,
+        _ => 100,
+    };
+    let mut sjobs = vec![];
+    for i in 0..n_shared {
+        let (msgs, fam) = match i % 5 {
+            0 | 1 | 2 => (gen_double_reboot_end(&mut rng, max_msgs, i % 2 == 0), "double_reboot_end"),
+            3 => (from_lcgen(lcgen::gen_scenario(&mut rng)).into_iter().take(max_msgs as usize + 20).collect(), "lcgen_scenario"),
+            _ => (from_lcgen(lcgen::gen_merge_template(&mut rng)), "lcgen_merge"),
+        };
+        let runs = gen_shared_runs(&mut rng);
+        sjobs.push((i, msgs, fam, runs));
+    }
+    let sq = Arc::new(Mutex::new(sjobs));
+    let sres: Arc<Mutex<Vec<(usize, SharedDone)>>> = Arc::new(Mutex::new(vec![]));
+    let mut ws = vec![];
+    for _ in 0..workers.min(8) {
+        let (sq, sres) = (sq.clone(), sres.clone());
+        ws.push(std::thread::spawn(move || loop {
+            let job = sq.lock().unwrap().pop();
+            match job {
+                Some((i, msgs, fam, runs)) => {
+                    let d = shared_case(&msgs, runs, fam, hang);
+                    sres.lock().unwrap().push((i, d));
+                }
+                None => break,
+            }
+        }));
+    }
+    for w in ws {
+        let _ = w.join();
+    }
+    let mut sr = std::mem::take(&mut *sres.lock().unwrap());
+    sr.sort_by_key(|(i, _)| *i);
+    let n_shared_done = sr.len();
+    for (_, d) in sr {
+        push_shared(&mut sink, d);
+    }
+    sink.extra_stats.insert("shared_table_cases".into(), json!(n_shared_done));
     sink.extra_stats.insert("loss_scenarios".into(), json!(n_loss));
     sink.extra_stats.insert("loss_runs_of_a_real_stage".into(), json!(loss_runs));
     sink.extra_stats.insert("loss_tail_messages_until_all_direct_max".into(), json!(calm_max));
